@@ -14,6 +14,7 @@ namespace drv {
 SlotCfg cfg[NSLOT + 1];
 std::unique_ptr<Mock> mocks[NMOCK];
 std::unique_ptr<MockN> nmock;
+std::unique_ptr<WMock> wmock;
 std::unique_ptr<trompeloeil::sequence> seqs[NSEQ + 1];
 std::unique_ptr<trompeloeil::expectation> exps[NSLOT + 1];
 std::unique_ptr<DW> objs[NOBJ + 1];
@@ -86,6 +87,7 @@ static std::unique_ptr<STr> stracers[NTR + 1];
 static int do_call(int m, int f, int a, int b)
 {
   if (m == NM_ID) return nmock->f(a);
+  if (m == WM_ID) return wmock->f(a);
   switch (f) {
   case 1: return mocks[m]->f(a);
   case 2: return mocks[m]->f(std::string("s") + std::to_string(a));
@@ -102,6 +104,7 @@ void nested_call(int slot)
   auto& n = cfg[slot].nest;
   if (nest_depth > 0 || n[1] < 1 || n[1] > 4) return;
   if (n[0] == NM_ID) { if (!nmock || n[1] != 1) return; }
+  else if (n[0] == WM_ID) { if (!wmock || n[1] != 1) return; }
   else if (n[0] < 0 || n[0] >= NMOCK || !mocks[n[0]]) return;
   struct G { G() { ++nest_depth; } ~G() { --nest_depth; } } g;
   do_call(n[0], n[1], n[2], n[3]);
@@ -276,13 +279,13 @@ static void run_op(std::string const& line)
   bool skip = false;
   try {
     if (op == "mock") {
-      if (A(0) == NM_ID && !nmock) nmock = std::make_unique<MockN>(); else if (okm(A(0)) && !mocks[A(0)]) mocks[A(0)] = std::make_unique<Mock>(); else skip = true;
+      if (A(0) == WM_ID && !wmock) wmock = std::make_unique<WMock>(); else if (A(0) == NM_ID && !nmock) nmock = std::make_unique<MockN>(); else if (okm(A(0)) && !mocks[A(0)]) mocks[A(0)] = std::make_unique<Mock>(); else skip = true;
     } else if (op == "seq") {
       if (okq(A(0)) && !seqs[A(0)]) seqs[A(0)] = std::make_unique<trompeloeil::sequence>(); else skip = true;
     } else if (op == "expect") {
       // expect slot shape mock p1op p1v p2op p2v w1op w1v w2op w2v w3op w3v se1 se2 se3 retv lo hi q1 q2 [nm nf na nb]
       int s = A(0);
-      if (!oks_(s) || exps[s] || scoped_exp[s] || !((A(2) == NM_ID && nmock) || (okm(A(2)) && mocks[A(2)]))) skip = true;
+      if (!oks_(s) || exps[s] || scoped_exp[s] || !((A(2) == WM_ID && wmock) || (A(2) == NM_ID && nmock) || (okm(A(2)) && mocks[A(2)]))) skip = true;
       else {
         SlotCfg& c = cfg[s];
         c = SlotCfg{};
@@ -297,11 +300,11 @@ static void run_op(std::string const& line)
         else if (!make_expectation(s, A(1))) skip = true;
       }
     } else if (op == "call") {
-      if ((A(0) == NM_ID && nmock && A(1) == 1) || (okm(A(0)) && mocks[A(0)])) ret = do_call(A(0), A(1), A(2), A(3)); else skip = true;
+      if ((A(0) == WM_ID && wmock && A(1) == 1) || (A(0) == NM_ID && nmock && A(1) == 1) || (okm(A(0)) && mocks[A(0)])) ret = do_call(A(0), A(1), A(2), A(3)); else skip = true;
     } else if (op == "release") {
       if (oks_(A(0)) && exps[A(0)]) exps[A(0)].reset(); else skip = true;
     } else if (op == "dmock") {
-      if (A(0) == NM_ID && nmock) nmock.reset(); else if (okm(A(0)) && mocks[A(0)]) mocks[A(0)].reset(); else skip = true;
+      if (A(0) == WM_ID && wmock) wmock.reset(); else if (A(0) == NM_ID && nmock) nmock.reset(); else if (okm(A(0)) && mocks[A(0)]) mocks[A(0)].reset(); else skip = true;
     } else if (op == "mmock") {
       if (okm(A(0)) && okm(A(1)) && mocks[A(0)] && !mocks[A(1)]) mocks[A(1)] = std::make_unique<Mock>(std::move(*mocks[A(0)]));
       else skip = true;
@@ -312,7 +315,8 @@ static void run_op(std::string const& line)
     } else if (op == "watch") {
       // watch k o nq q1 q2
       int k = A(0), o = A(1), nq = A(2);
-      if (!okk(k) || mons[k] || scoped_mon[k] || !oko(o) || !objs[o] || (nq >= 1 && (!okq(A(3)) || !seqs[A(3)])) || (nq >= 2 && (!okq(A(4)) || !seqs[A(4)])))
+      if (o == WM_ID) { if (!okk(k) || mons[k] || scoped_mon[k] || !wmock || (nq >= 1 && (!okq(A(3)) || !seqs[A(3)])) || (nq >= 2 && (!okq(A(4)) || !seqs[A(4)])) || !make_wmonitor(k, nq, A(3), A(4))) skip = true; }
+      else if (!okk(k) || mons[k] || scoped_mon[k] || !oko(o) || !objs[o] || (nq >= 1 && (!okq(A(3)) || !seqs[A(3)])) || (nq >= 2 && (!okq(A(4)) || !seqs[A(4)])))
         skip = true;
       else if (!make_monitor(k, o, nq, A(3), A(4))) skip = true;
     } else if (op == "unwatch") {
@@ -388,6 +392,7 @@ static int run_segment(std::vector<std::string> const& ops)
     for (int o = 1; o <= NOBJ; ++o) objs[o].reset();
     for (int m = 0; m < NMOCK; ++m) mocks[m].reset();
     nmock.reset();
+    wmock.reset();
     for (int q = 1; q <= NSEQ; ++q) seqs[q].reset();
     // tracers: only a LIFO-safe order is used here (creation order unknown -> destroy those whose
     // destruction is the script's business; the generator always destroys tracers explicitly)
